@@ -782,6 +782,21 @@ pub fn build_wire(case: &Case, k: usize) -> Wire {
             End::OnData
         };
     }
+    // Known finding C03/h2-next-request-lost-after-length-complete-request-ended-by-later-empty-data: a request that
+    // declares its length and carries END_STREAM on an empty DATA frame after the length is met (sozu ends the
+    // HTTP/1.1 message at the declared length, the backend answers, the stream is recycled while frames of it are
+    // still arriving) can cost the next stream its forwarding (answered 504, nothing at the backend). Generated
+    // cases drop the empty frames behind the declared length: END_STREAM sits on the frame that completes it.
+    if !case.strict && s.declare_cl && w.end == End::OnData {
+        let before = w.data.len();
+        while w.data.len() > 1 && w.data.last().map(|d| d.is_empty()).unwrap_or(false) {
+            w.data.pop();
+        }
+        if w.data.len() != before {
+            w.excluded += 1;
+            w.labels.push("known_excluded:empty_data_behind_declared_length");
+        }
+    }
     for mu in &s.muts {
         if !case.strict && known_shape(mu, &w).is_some() {
             w.excluded += 1;
@@ -1380,7 +1395,9 @@ struct Judge<'a> {
 
 impl Judge<'_> {
     fn lenient(&self, k: usize) -> bool {
-        matches!(self.fates[k], Fate::Refused(_) | Fate::NotSent)
+        // a stream the client never ended is an unfinished request whatever answer a timeout later produces: what
+        // the backend holds of it is a prefix of a message still under way, not a framing disagreement
+        matches!(self.fates[k], Fate::Refused(_) | Fate::NotSent) || self.wires[k].end == End::Never
     }
 
     /// one message a reader found on a backend connection
@@ -1561,7 +1578,10 @@ pub fn judge(case: &Case, wires: &[Wire], obs: &Observed) -> CheckResult {
         j.order.insert((b, conn), marks);
     }
     // ---- every stream
-    let conn_died = obs.eof || obs.goaway.map(|(_, code)| code != h2::NO_ERROR).unwrap_or(false) || obs.streams.iter().any(|s| s.conn_dead);
+    // a GOAWAY of any kind counts: after an answer it wrote itself (`Connection: close`) sozu drains the connection
+    // with GOAWAY(NO_ERROR) and refuses streams opened afterwards with REFUSED_STREAM, which RFC 9113 6.8 allows
+    // (the client retries them on a new connection)
+    let conn_died = obs.eof || obs.goaway.is_some() || obs.streams.iter().any(|s| s.conn_dead);
     let (mut forwarded, mut refused, mut normalised) = (0u64, 0u64, 0u64);
     for (k, w) in wires.iter().enumerate() {
         let here = || format!("{} -> {:?}", describe_wire(w), fates[k]);
@@ -1587,6 +1607,25 @@ pub fn judge(case: &Case, wires: &[Wire], obs: &Observed) -> CheckResult {
         if !w.mutated() {
             let ok = matches!(&fates[k], Fate::Answered(s, Some(_)) if (200..300).contains(s)) && j.seen[k] == 1;
             let excused = conn_died && wires.iter().enumerate().any(|(i, o)| o.mutated() && obs.streams[i].sent && (case.all_at_once || i < k));
+            // Known finding C03/h2-connection-parked-after-early-answer: a stream that sozu answers itself at its
+            // HEADERS (400 / 401 / 404 / 421 ...) while the client goes on sending its body: the DATA frames keep
+            // being stored in that stream's buffer, which nothing drains; the first frame that no longer fits
+            // (here: more than ~12 kB of body) parks the whole connection, later streams are never read.
+            let parked_by = wires.iter().enumerate().find(|(i, o)| *i != k && (case.all_at_once || *i < k) && matches!(&fates[*i], Fate::Refused(why) if why.contains("written by sozu")) && o.sent_body().len() > 12_000);
+            let late_end = |o: &Wire| o.end == End::OnData && o.headers.iter().any(|(n, _)| n == b"content-length") && o.data.len() > 1 && o.data.last().map(|d| d.is_empty()).unwrap_or(false);
+            if case.strict && !ok && !excused && wires.iter().enumerate().any(|(i, o)| i < k && late_end(o)) {
+                fail!("C03/h2-next-request-lost-after-length-complete-request-ended-by-later-empty-data", "{}: not forwarded after a stream whose END_STREAM came on an empty DATA frame behind its declared length. client: {}", here(), client());
+            }
+            if !ok && !excused && fates[k] == Fate::NoAnswer {
+                if let Some((i, _)) = parked_by {
+                    if case.strict {
+                        fail!("C03/h2-connection-parked-after-early-answer", "{}: never read by sozu: stream {} was answered by sozu itself while {} bytes of its body were still arriving, the connection has been parked on that stream's buffer since. client: {}", here(), 2 * i + 1, wires[i].sent_body().len(), client());
+                    }
+                    rep.excluded_known += 1;
+                    rep.class("known_excluded:connection-parked-after-early-answer");
+                    continue;
+                }
+            }
             if !ok && !excused {
                 fail!("C03/h2-valid-request-not-forwarded", "{}: a well-formed request (no mutation) was not forwarded and answered 2xx by the backend ({} message(s) with its marker at the backends; GOAWAY {:?}, connection closed {}). client: {}", here(), j.seen[k], obs.goaway, obs.eof, client());
             }
@@ -1674,7 +1713,7 @@ pub fn scenario(lab: &mut Lab, case: &Case) -> Result<(CaseReport, bool), Failur
     }
 }
 
-pub const RULE: &str = "wire lab, HTTP/2 frontend -> HTTP/1.1 backends: one client connection (TLS, ALPN h2, own frame codec, HPACK literals without indexing so any byte survives) to a live worker whose HTTPS listener routes c0.lab to a cluster with one and c1.lab to a cluster with two recording keep-alive backends (every byte per connection is stored; 200 is answered to each request the STRICT RFC 9112 reader can read, tagged backend-connection-index). Scenario: 1..4 request streams, one after the other (the answer / reset of stream k is awaited before k+1) or all at once; the client's bytes in one write per stream or in generated pieces with pauses; optionally a 20 ms wait for a refusal between the initial HEADERS and the rest of a stream. Each stream = a valid request (GET/POST/PUT/DELETE/OPTIONS/HEAD, :path /n<nonce>/k<index>[/seg][?q], :authority = the routed host, marker field x-m, 0..3 harmless fields incl. te: trailers, cookie, x-forwarded-for; POST/PUT: 0..4 DATA frames of 0..16000 bytes (empty frames included, 20 kB at most, optional padding), with or without content-length, 0..3 trailer fields; body content letters, a complete HTTP/1.1 request, or `0 CRLF CRLF` + a request; header block optionally split into HEADERS + CONTINUATION) plus 0..2 mutations: content-length larger / smaller than the DATA total ended by DATA+END_STREAM, empty DATA+END_STREAM, trailers+END_STREAM or END_STREAM on HEADERS; second content-length (equal / different); 19 content-length spellings (+N, N SP, 0xN, N,N, N, M, empty, leading zeros, 20 digits, 2^64, HTAB, ;q=1 ...); transfer-encoding (chunked, Chunked, CHUNKED, `chunked, identity`, ` chunked`, identity, `gzip, chunked`, xchunked ..., alone or with content-length, upper-case name, body = chunk framing ending in a smuggled request); connection / keep-alive / proxy-connection / upgrade / te: gzip fields; CR, LF, CRLF, NUL, ':', SP, HTAB, '(', upper case, UTF-8, empty in field names (header block or trailers), incl. names that spell a whole header line or a second request; CR / LF / CRLF / NUL / CTL / DEL / obs-fold / leading and trailing whitespace in values, incl. `x CRLF transfer-encoding: chunked`, `x CRLF CRLF GET /smuggled HTTP/1.1 CRLF host: h`, `x CRLF content-length: 0 CRLF CRLF GET ...`; pseudo-header faults (missing :method / :path / :scheme / :authority, duplicate :path / :method / :authority / :scheme, pseudo-header after a regular field, :foo, :status, :protocol, pseudo-header in trailers); :path empty, without slash, with space / HTAB / NUL / DEL / CR / LF / CRLF + field / ` HTTP/1.1 CRLF field` / a whole second request, absolute-form, `*`, fragment, UTF-8; :method with space, `GET / HTTP/1.1 CRLF Host: evil CRLF CRLF GET`, empty, lower case, colon, HTAB, NUL, unknown token; :authority with space / CRLF + field / userinfo / port / upper case / path / HTAB, empty, unknown host, other cluster + Host own, Host only (own / other), both equal, both different, two Host fields, Host with CRLF; :scheme http / ftp / HTTP / empty / `https://evil` / CRLF + field; DATA on GET / HEAD / DELETE / OPTIONS; HEAD with content-length; CONNECT (3 forms); content-length: 0 with DATA; trailers carrying content-length / transfer-encoding / host / another stream's marker / connection / te / :path; trailers without END_STREAM, DATA after END_STREAM, a second HEADERS after END_STREAM. Oracle (black box): for every backend connection the recorded bytes O are accepted by the strict RFC 9112 reader and 14 permissive variant readers find the same message boundaries, nothing unreadable is left (an incomplete last message only for a refused stream); every message found carries exactly one Sozu-Id (sozu wrote it as one request head) and the marker of exactly one client stream (x-m field and / or :path), no stream appears twice, nothing without a marker appears; its method and target equal the stream's :method and :path, its host equals :authority (Host when there is no :authority) and is the host of the cluster it was routed to; every field line is one whose name the client sent as a field name in that stream or one sozu writes itself (Host, Content-Length, Transfer-Encoding, Connection, X-Forwarded-*, Forwarded, X-Request-Id, Sozu-Id, Cookie), every trailer line one the client sent as a trailer; at most one Content-Length / Transfer-Encoding / Host, Transfer-Encoding only as sozu's own `chunked`, none of the client's keep-alive / proxy-connection / upgrade / TE other than trailers / named Connection fields; the body the strict reader extracts equals the concatenation of the DATA payloads sent before END_STREAM (Content-Length n != DATA total: h2-content-length-disagrees-with-data-forwarded; admitted: the head declared n itself, exactly the first n bytes arrived and the excess reached no backend - sozu had forwarded the head before the DATA was in). A stream counts as refused on RST_STREAM, GOAWAY / close before an answer, a 4xx written by sozu, or when the client cancelled it; of a refused stream a backend may hold a head and a prefix of its DATA, otherwise it is judged like a forwarded one. The answer a client receives on a stream must be the backend's answer to that stream's own request (backend-connection-index tag). A stream without mutation must be forwarded once and answered 2xx by the backend, unless the connection was lost after a mutated stream sent earlier (or at the same time). Refusing a mutated stream is never a failure; mutated streams that RFC 9113 allows are admitted either way. A failure is re-run twice on a fresh worker and reported only when it reproduces (else flaky_unconfirmed); a worker that dies is a failure; a connection the harness cannot open ends the run as inconclusive. Non-trivial: at least one stream was forwarded and answered by a backend and (a mutation was applied or two streams shared a backend connection).";
+pub const RULE: &str = "wire lab, HTTP/2 frontend -> HTTP/1.1 backends: one client connection (TLS, ALPN h2, own frame codec, HPACK literals without indexing so any byte survives) to a live worker whose HTTPS listener routes c0.lab to a cluster with one and c1.lab to a cluster with two recording keep-alive backends (every byte per connection is stored; 200 is answered to each request the STRICT RFC 9112 reader can read, tagged backend-connection-index). Scenario: 1..4 request streams, one after the other (the answer / reset of stream k is awaited before k+1) or all at once; the client's bytes in one write per stream or in generated pieces with pauses; optionally a 20 ms wait for a refusal between the initial HEADERS and the rest of a stream. Each stream = a valid request (GET/POST/PUT/DELETE/OPTIONS/HEAD, :path /n<nonce>/k<index>[/seg][?q], :authority = the routed host, marker field x-m, 0..3 harmless fields incl. te: trailers, cookie, x-forwarded-for; POST/PUT: 0..4 DATA frames of 0..16000 bytes (empty frames included, 20 kB at most, optional padding), with or without content-length, 0..3 trailer fields; body content letters, a complete HTTP/1.1 request, or `0 CRLF CRLF` + a request; header block optionally split into HEADERS + CONTINUATION) plus 0..2 mutations: content-length larger / smaller than the DATA total ended by DATA+END_STREAM, empty DATA+END_STREAM, trailers+END_STREAM or END_STREAM on HEADERS; second content-length (equal / different); 19 content-length spellings (+N, N SP, 0xN, N,N, N, M, empty, leading zeros, 20 digits, 2^64, HTAB, ;q=1 ...); transfer-encoding (chunked, Chunked, CHUNKED, `chunked, identity`, ` chunked`, identity, `gzip, chunked`, xchunked ..., alone or with content-length, upper-case name, body = chunk framing ending in a smuggled request); connection / keep-alive / proxy-connection / upgrade / te: gzip fields; CR, LF, CRLF, NUL, ':', SP, HTAB, '(', upper case, UTF-8, empty in field names (header block or trailers), incl. names that spell a whole header line or a second request; CR / LF / CRLF / NUL / CTL / DEL / obs-fold / leading and trailing whitespace in values, incl. `x CRLF transfer-encoding: chunked`, `x CRLF CRLF GET /smuggled HTTP/1.1 CRLF host: h`, `x CRLF content-length: 0 CRLF CRLF GET ...`; pseudo-header faults (missing :method / :path / :scheme / :authority, duplicate :path / :method / :authority / :scheme, pseudo-header after a regular field, :foo, :status, :protocol, pseudo-header in trailers); :path empty, without slash, with space / HTAB / NUL / DEL / CR / LF / CRLF + field / ` HTTP/1.1 CRLF field` / a whole second request, absolute-form, `*`, fragment, UTF-8; :method with space, `GET / HTTP/1.1 CRLF Host: evil CRLF CRLF GET`, empty, lower case, colon, HTAB, NUL, unknown token; :authority with space / CRLF + field / userinfo / port / upper case / path / HTAB, empty, unknown host, other cluster + Host own, Host only (own / other), both equal, both different, two Host fields, Host with CRLF; :scheme http / ftp / HTTP / empty / `https://evil` / CRLF + field; DATA on GET / HEAD / DELETE / OPTIONS; HEAD with content-length; CONNECT (3 forms); content-length: 0 with DATA; trailers carrying content-length / transfer-encoding / host / another stream's marker / connection / te / :path; trailers without END_STREAM, DATA after END_STREAM, a second HEADERS after END_STREAM. Oracle (black box): for every backend connection the recorded bytes O are accepted by the strict RFC 9112 reader and 14 permissive variant readers find the same message boundaries, nothing unreadable is left (an incomplete last message only for a refused stream); every message found carries exactly one Sozu-Id (sozu wrote it as one request head) and the marker of exactly one client stream (x-m field and / or :path), no stream appears twice, nothing without a marker appears; its method and target equal the stream's :method and :path, its host equals :authority (Host when there is no :authority) and is the host of the cluster it was routed to; every field line is one whose name the client sent as a field name in that stream or one sozu writes itself (Host, Content-Length, Transfer-Encoding, Connection, X-Forwarded-*, Forwarded, X-Request-Id, Sozu-Id, Cookie), every trailer line one the client sent as a trailer; at most one Content-Length / Transfer-Encoding / Host, Transfer-Encoding only as sozu's own `chunked`, none of the client's keep-alive / proxy-connection / upgrade / TE other than trailers / named Connection fields; the body the strict reader extracts equals the concatenation of the DATA payloads sent before END_STREAM (Content-Length n != DATA total: h2-content-length-disagrees-with-data-forwarded; admitted: the head declared n itself, exactly the first n bytes arrived and the excess reached no backend - sozu had forwarded the head before the DATA was in). A stream counts as refused on RST_STREAM, GOAWAY / close before an answer, a 4xx written by sozu, when the client cancelled it, or when the client never ended it (no END_STREAM: the request is unfinished whatever a timeout answers later); of a refused stream a backend may hold a head and a prefix of its DATA, otherwise it is judged like a forwarded one. The answer a client receives on a stream must be the backend's answer to that stream's own request (backend-connection-index tag). A stream without mutation must be forwarded once and answered 2xx by the backend, unless the connection was lost or put into draining (GOAWAY of any code) after a mutated stream sent earlier (or at the same time). Refusing a mutated stream is never a failure; mutated streams that RFC 9113 allows are admitted either way. A failure is re-run twice on a fresh worker and reported only when it reproduces (else flaky_unconfirmed); a worker that dies is a failure; a connection the harness cannot open ends the run as inconclusive. Non-trivial: at least one stream was forwarded and answered by a backend and (a mutation was applied or two streams shared a backend connection).";
 
 pub fn child(args: &Args, total: u64) -> Stats {
     lab::init_ports(args.shard.map(|s| s.0).unwrap_or(0) + 3);
